@@ -1,4 +1,6 @@
 pub mod c01;
+pub mod c02;
+pub mod c03;
 
 use crate::engine::Report;
 
@@ -13,6 +15,8 @@ pub fn level_of(id: &str) -> &'static str {
 pub fn run(id: &str, rep: &mut Report) -> bool {
     match id {
         "C01" => c01::run(rep),
+        "C02" => c02::run(rep),
+        "C03" => c03::run(rep),
         _ => return false,
     }
     true
